@@ -15,6 +15,8 @@ def cells(tier):
     plain = lambda op, story_k, tk, sk, nk: story_k in (None, 'existing') and tk in (None, 'existing', 'unknown') and \
         (sk is None or sk in (['existing'], ['existing', 'existing'], ['existing', 'unknown'])) and (nk is None or nk == ['fresh'])
     out += make_cells(PID, 'atomic', tier, N=3, thin=plain, extra={'prehist': True}, suffix='after-roReplace')
+    # ... and after a series of refused messages (what a non-strict collection merge leaves behind)
+    out += make_cells(PID, 'atomic', tier, N=3, thin=plain, extra={'prefail': True}, suffix='after-refused-messages')
     # a roStorySend without storyBody (header-only send) may fail, but then nothing may have been touched
     only = lambda op, story_k, tk, sk, nk: True
     out += make_cells(PID, 'atomic', tier, N=3, ops=['roStorySend'], extra={'no_body': True}, suffix='no-storyBody')
